@@ -458,7 +458,7 @@ def _subsequence(ch, seq, contiguous):
 
 @st.composite
 def model_cases(draw, classes=None, max_nodes=5, p_node=4, p_se=4, p_ignore=4, p_constr=3, p_opts=0,
-                odd_names=True, noise=True, k_slack=2, weight_types=("int", "float"), p_float_scale=0, p_equal=4, p_len=5, p_wild=0, p_hub=6, p_iso=6):
+                odd_names=True, noise=True, k_slack=2, weight_types=("int", "float"), p_float_scale=0, p_equal=4, p_len=5, p_wild=0, p_hub=6, p_iso=6, p_spur=3):
     """A full model construction: class, planted instance, kwargs.  p_* are '1 in p' odds (0 = never).
     The result is a JSON case {cls, graph, flow_attr, kw, meta}; meta carries the planted witness."""
     cls = draw(st.sampled_from(classes or ALL_CLASSES))
@@ -519,6 +519,16 @@ def model_cases(draw, classes=None, max_nodes=5, p_node=4, p_se=4, p_ignore=4, p
         for v in r:
             nflow[v] = nflow.get(v, 0) + w
     kept_edges = [e for e in edges if e in eflow]
+    if noise and cls in INEXACT and one_in(p_spur):
+        # spurious elements: edges (and their end nodes) that no planted route uses, with a small or a large value of their own -
+        # real inexact data contain them, and a good solution leaves them uncovered
+        for e in edges:
+            if e not in eflow and ch.coin(1, 2):
+                eflow[e] = ch.pick([0, 1, 2, 1, 9])
+                kept_edges.append(e)
+                for x in e:
+                    nflow.setdefault(x, ch.pick([0, 1, 2, 9]))
+        kept_edges = [e for e in edges if e in eflow]
     used = {x for e in kept_edges for x in e}
     kept_nodes = [v for v in nodes if v in used]
     starts = [v for v in starts if v in used]
@@ -654,7 +664,7 @@ def model_cases(draw, classes=None, max_nodes=5, p_node=4, p_se=4, p_ignore=4, p
     # ---- length-based constraint coverage (DAG classes): lengths on edges (edge mode) or on nodes (node mode)
     lengths = None
     if constraints and not cyc and one_in(p_len):
-        lengths = {el: ch.pick([1, 2, 3, 4, 1, 10, 50]) for el in (kept_nodes if node_mode else kept_edges)}
+        lengths = {el: ch.pick([1, 2, 0, 3, 4, 1, 10, 50, 0]) for el in (kept_nodes if node_mode else kept_edges)}  # 0 is a legal length
     # ---- assemble graph
     g_nodes, g_edges = [], []
     for v in kept_nodes:
@@ -714,4 +724,8 @@ def model_cases(draw, classes=None, max_nodes=5, p_node=4, p_se=4, p_ignore=4, p
         "node_mode": node_mode,
         "missing_attr": missing,
     }
-    return {"cls": cls, "graph": {"nodes": g_nodes, "edges": g_edges}, "flow_attr": "flow", "kw": kw, "meta": meta}
+    graph = {"nodes": g_nodes, "edges": g_edges}
+    if ch.coin(1, 4):
+        # an explicit graph id (what read_graphs and the examples set); ids are NOT unique: different graphs may carry the same one
+        graph["gid"] = ch.pick(["simple_graph", "g"])
+    return {"cls": cls, "graph": graph, "flow_attr": "flow", "kw": kw, "meta": meta}
